@@ -410,6 +410,10 @@ func checkC12(prop, tier string) int {
 	var samples []any
 	for i, r := range results {
 		if r.Crashed || r.Err != "" {
+			if v := crashViolation(pool, "C12", jobs[i], r); v != nil {
+				viols = append(viols, *v)
+				continue
+			}
 			infra++
 			fmt.Fprintf(os.Stderr, "INFRA: c12 job %d: %s %s\n", i, r.Err, tail(r.Stderr, 600))
 			continue
